@@ -65,6 +65,27 @@ class SchedDict(dict):
         return dict.pop(self, k, *d)
 
 
+def _sched_lru(cap):
+    """a bounded lookup's collection (util.LRUCache) with the same scheduling points"""
+    from mako import util
+
+    class SchedLRU(util.LRUCache):
+        driver = None
+
+        def __getitem__(self, k):
+            self.driver.point("get")
+            return util.LRUCache.__getitem__(self, k)
+
+        def __setitem__(self, k, v):
+            self.driver.point("set")
+            util.LRUCache.__setitem__(self, k, v)
+
+        def pop(self, k, *d):
+            self.driver.point("pop")
+            return dict.pop(self, k, *d)
+    return SchedLRU(cap)
+
+
 SCENARIOS = [
     # name, checks, files {u: (ver, ok)}, threads [(tid, uri)], warm (uris loaded first by thread 9), env ops available
     ("cold-same-uri", True, {1: (1, True)}, [(0, 1), (1, 1)], [], []),
@@ -77,6 +98,9 @@ SCENARIOS = [
     ("broken-file", True, {1: (1, False)}, [(0, 1), (1, 1)], [], []),
     ("broken-then-fixed", True, {1: (1, False)}, [(0, 1), (1, 1)], [], [("K", 2000), ("W", 1, 7, 1)]),
     ("missing", True, {}, [(0, 1), (1, 1)], [], [("W", 1, 3, 1)]),
+    # the same with collection_size set (no eviction at these sizes: the bounded collection must behave like the plain one)
+    ("cold-same-uri-bounded", True, {1: (1, True)}, [(0, 1), (1, 1)], [], []),
+    ("warm-then-modified-bounded", True, {1: (1, True)}, [(0, 1), (1, 1)], [1], [("K", 3000), ("W", 1, 5, 1)]),
 ]
 
 
@@ -137,7 +161,7 @@ def run_real(sc, acts):
         orig = mlookup.Template
         mlookup.Template = CountingTemplate
         lk = mlookup.TemplateLookup(directories=[root], filesystem_checks=checks)
-        coll = SchedDict()
+        coll = _sched_lru(4) if name.endswith("-bounded") else SchedDict()
         coll.driver = drv
         lk._collection = coll
         lk._mutex = SchedLock(drv)
@@ -148,7 +172,10 @@ def run_real(sc, acts):
             try:
                 t = lk.get_template("/n%d.html" % u)
                 keep.append(t)
-                results[tid] = ("ok", id(t), t)
+                if not isinstance(t, Template):
+                    results[tid] = ("other:get_template returned a %s, not a Template" % type(t).__qualname__,)
+                else:
+                    results[tid] = ("ok", id(t), t)
             except exceptions.TopLevelLookupException:
                 results[tid] = ("top",)
             except exceptions.TemplateLookupException:
@@ -370,9 +397,23 @@ def _render_scenarios():
 
         def invalidate(self, key, **kw):
             pass
+    class ArgsImpl(mcache.CacheImpl):
+        """a backend whose answer shows the arguments it was called with: what a section's own cache_* attributes select"""
+        store = {}
+
+        def get_or_create(self, key, creation_function, **kw):
+            k = (self.cache.id, key)
+            if k not in ArgsImpl.store:
+                ArgsImpl.store[k] = creation_function()
+            return "%s/%s:%s" % (kw.get("type"), kw.get("timeout"), ArgsImpl.store[k])
+
+        def invalidate(self, key, **kw):
+            pass
     sys.modules["c16_langimpl"] = type(sys)("c16_langimpl")
     sys.modules["c16_langimpl"].LangImpl = LangImpl
+    sys.modules["c16_langimpl"].ArgsImpl = ArgsImpl
     mcache.register_plugin("c16lang", "c16_langimpl", "LangImpl")
+    mcache.register_plugin("c16args", "c16_langimpl", "ArgsImpl")
 
     sources = {
         "/base.html": "<%def name='wrap(x)'>[${x}:${caller.body()}]</%def>BASE(${self.body()})",
@@ -384,6 +425,7 @@ ${loop.index}${n.d(who + str(i))}<%self:wrap x="${who}">${i}${who}</%self:wrap>
 <%include file="/inc.html" args="who=who"/>""",
         "/inc.html": "<%page args='who'/>inc:${who}:${len(who)}",
         "/cached.html": "<%def name='greet()' cached='True'>${hello[lang]}, ${lang}!</%def>${greet()} ${who}",
+        "/cachedargs.html": "<%def name='g()' cached='True' cache_type='special' cache_timeout='60'>G</%def><%block name='b' cached='True' cache_timeout='5'>B</%block>${g()} ${who}",
         "/many.html": "% for j in range(6):\n<%include file='/i${str(j)}.html'/>\n% endfor\n${who}",
     }
     for j in range(6):
@@ -392,7 +434,7 @@ ${loop.index}${n.d(who + str(i))}<%self:wrap x="${who}">${i}${who}</%self:wrap>
     # the same include several times in a row: the later ones find their URI-cache entry -- unless another render evicts it in between
     sources["/twice.html"] = "<%include file='/leaf.html'/><%include file='/leaf.html'/><%include file='/leaf.html'/>${who}"
 
-    needed = {"plain": ["/base.html", "/ns.html", "/page.html", "/inc.html"], "cache": ["/cached.html"],
+    needed = {"plain": ["/base.html", "/ns.html", "/page.html", "/inc.html"], "cache": ["/cached.html"], "cacheargs": ["/cachedargs.html"],
               "lru": ["/many.html", "/leaf.html", "/twice.html"] + ["/i%d.html" % j for j in range(6)]}
 
     def mk(kind):
@@ -406,6 +448,9 @@ ${loop.index}${n.d(who + str(i))}<%self:wrap x="${who}">${i}${who}</%self:wrap>
                 lk._uri_cache = util.LRUCache(2)
             elif kind == "cache":
                 lk = TemplateLookup(cache_impl="c16lang")
+            elif kind == "cacheargs":
+                ArgsImpl.store = {}
+                lk = TemplateLookup(cache_impl="c16args", cache_args={"type": "default"})
             else:
                 lk = TemplateLookup()
             for k_ in needed[kind]:
@@ -416,6 +461,7 @@ ${loop.index}${n.d(who + str(i))}<%self:wrap x="${who}">${i}${who}</%self:wrap>
     return [
         ("inherit-namespace-include", mk("plain"), [("/page.html", dict(who="t0", k=3)), ("/page.html", dict(who="t1", k=4))]),
         ("cached-def-context-backend", mk("cache"), [("/cached.html", dict(who="a", lang="en", hello=hello)), ("/cached.html", dict(who="b", lang="fr", hello=hello))]),
+        ("cached-sections-with-own-arguments", mk("cacheargs"), [("/cachedargs.html", dict(who="a")), ("/cachedargs.html", dict(who="b"))]),
         ("lru-lookup-includes", mk("lru"), [("/many.html", dict(who="x")), ("/many.html", dict(who="y"))]),
         ("lru-repeated-include-vs-many", mk("lru"), [("/twice.html", dict(who="x")), ("/many.html", dict(who="y"))]),
     ]
@@ -468,6 +514,14 @@ def render_isolation(ctx, tier):
             for w in range(len(jobs)):
                 if outs[w] != solo[w]:
                     ctx.violation(case, "a concurrent render differs from the same render run alone", tags=["c16.render"])
+                    return
+            # a bounded cache stays within its bound once the renders are over
+            from mako import util as _util
+            for cname in ("_uri_cache", "_collection"):
+                cobj = getattr(lk, cname, None)
+                if isinstance(cobj, _util.LRUCache) and len(cobj) > cobj.capacity + cobj.capacity * cobj.threshold:
+                    ctx.violation(dict(case, cache=cname, entries=len(cobj), capacity=cobj.capacity),
+                                  "a bounded cache of the lookup is over its bound after concurrent renders", tags=["c16.render.bound"])
                     return
     ctx.generators["render_preemption"] = {"scenarios": [s[0] for s in _render_scenarios()], "plans_per_scenario": nplans,
                                            "method": "sys.settrace line-level scheduling points, 1-4 budgeted context switches per plan"}
